@@ -39,6 +39,11 @@ fn algo_of(i: u8) -> &'static aead::Algorithm {
     }
 }
 
+/// connection core as an outsider faces it: four real (non-free) model keys and an empty seal log, so no datagram opens
+pub fn outsider_core() -> CryptoCore {
+    core_with(&aead::AES_256_GCM, &[0x44; 32], false, 0)
+}
+
 /// a core whose four slots hold independent model keys; `keyed` is the slot that gets `bytes`
 fn core_with(algo: &'static aead::Algorithm, bytes: &[u8; 32], half: bool, current: usize) -> CryptoCore {
     let other = [0x11u8; 32];
